@@ -5,9 +5,14 @@ package metrics
 // TargetName pair (the template is installed the way init() installs the default one).
 
 import (
+	"bytes"
 	"encoding/json"
+	"regexp"
+	"strconv"
 	"strings"
+	"sync"
 	"testing"
+	"time"
 
 	"github.com/fabiolb/fabio/internal/verifx"
 )
@@ -95,4 +100,54 @@ func TestVerifX05Names(t *testing.T) {
 		t.Fatal(err)
 	}
 	verifx.Summary(map[string]any{"cases": n, "distinct": len(distinct), "samples": samples})
+}
+
+// TestVerifX05FlushProbe measures the named deviation FlushLossy of spec/Metrics_Trace.tla: 8 goroutines add
+// to one counter of the real statsd provider while the provider is flushed (its own WriteTo, what the
+// SendLoop does every metrics.interval); what the flushes report in total must be what was added.
+func TestVerifX05FlushProbe(t *testing.T) {
+	p, err := NewStatsdProvider("x05.", "127.0.0.1:9", time.Hour)
+	if err != nil {
+		t.Fatal(err)
+	}
+	c := p.NewCounter("probe")
+	const workers, each = 8, 20000
+	re := regexp.MustCompile(`(?m)^x05\.probe:([0-9.]+)\|c`)
+	var flushed float64
+	sum := func() {
+		var b bytes.Buffer
+		p.S.WriteTo(&b)
+		for _, m := range re.FindAllStringSubmatch(b.String(), -1) {
+			f, _ := strconv.ParseFloat(m[1], 64)
+			flushed += f
+		}
+	}
+	var wg sync.WaitGroup
+	stop := make(chan struct{})
+	done := make(chan struct{})
+	go func() {
+		defer close(done)
+		for {
+			select {
+			case <-stop:
+				return
+			default:
+				sum()
+			}
+		}
+	}()
+	for w := 0; w < workers; w++ {
+		wg.Add(1)
+		go func() {
+			defer wg.Done()
+			for i := 0; i < each; i++ {
+				c.Add(1)
+			}
+		}()
+	}
+	wg.Wait()
+	close(stop)
+	<-done
+	sum()
+	verifx.Summary(map[string]any{"added": workers * each, "flushed": int64(flushed), "lost": int64(workers*each) - int64(flushed)})
 }
